@@ -457,6 +457,20 @@ class SurfaceMonitor(Monitor):
                 if rec.get("status") == "RUNNING" and last.get("type") in ("ExecutionSucceeded", "ExecutionFailed"):
                     self.fail("record-vs-history", "%s: RUNNING record but history ends with %r" % (arn, last.get("type")))
 
+    def at_publish(self, world, n):
+        """Called at the very instant the notification is published: the stored record must already tell the same story."""
+        d = _detail(n)
+        arn = d.get("executionArn")
+        if not self.standard(arn):
+            return
+        rec = engine_record(world, arn)
+        if rec is None:
+            self.fail("notification-without-record", "%s: %s published but no record is stored" % (arn, d.get("status")))
+            return
+        for f in ("status", "output", "error"):
+            if rec.get(f) != d.get(f):
+                self.fail("record-lags-notification:%s" % f, "%s: at the moment '%s' is published the stored record has %s=%r (notification: %r)" % (arn, d.get("status"), f, rec.get(f), d.get(f)))
+
     def finish(self, world):
         # the API views (DescribeExecution / ListExecutions / GetExecutionHistory) through every instance agree with the store
         ids = self.api_engines or [i for i, e in world.engines.items() if e.alive]
